@@ -321,3 +321,14 @@ def check_C11():
                 % (n, srep["counters"].get("finalized_files_checked", 0) + srep2["counters"].get("finalized_files_checked", 0)),
         "exhaustive": True, "explanation": "TLC checks OrderIndependent / LookupsAreMultisetFunctions over all permutations of every reachable load sequence"})
     finish("C11", "model_checking", cov, viols, inconclusive=rep.get("inconclusive") or None)
+
+
+def check_C10():
+    n = 2 if tier() == "quick" else 3
+    emit_family("C10", "MCTransform", "Transform_%d" % n, "transform-replay",
+                "every behaviour of %d transform steps {WrapV1/WrapV1File (both codecs), ExtractV1File to an absent / larger pre-existing / the same path, ReplaceRootsInFile with 6 replacement "
+                "root lists of equal and different encoded size} from every file of <= 2 sections over 6 blocks x 4 root lists x 5 containers (CARv1, CARv2 +/- index, paddings 1/7/8/1407/1413, "
+                "fully indexed); after every step ALL bytes of the file are compared with the reference encoding of the specification's abstract file; refused operations must leave the bytes "
+                "unchanged; sources of wrap/extract must stay untouched" % n,
+                "TLC enumerates the complete behaviour tree of Transform.tla and checks SecsNeverChange / RootsOnlyEqualLength / ExtractWrapIdentity / ErrLeavesFile",
+                assumptions=["wrapping a file that is not a CARv1 is outside the property"])
